@@ -249,6 +249,24 @@ theorem shrimp_length_monotone (s₁ s₂ l₁ l₂ : α) (h : s₁ ≤ s₂)
       List.Pairwise.nil, and_true]
     norm_num
 
+/-- … over every temperature history: the stage after any number of updates is not below the stage before, and
+stays in `[1, 6]` (initial stage at most 6, time step non-negative) -/
+theorem shrimp_history_monotone (dt : α) (hdt : 0 ≤ dt) (temps : List α) (stage : α) (h6 : stage ≤ 6) :
+    stage ≤ temps.foldl (fun s t => shrimpStage t dt s) stage ∧
+    temps.foldl (fun s t => shrimpStage t dt s) stage ≤ 6 := by
+  induction temps generalizing stage with
+  | nil => simp [h6]
+  | cons t ts ih =>
+    simp only [List.foldl]
+    have h := ih (shrimpStage t dt stage) (shrimp_stage_range t dt stage).2
+    exact ⟨le_trans (shrimp_stage_monotone t dt stage hdt h6) h.1, h.2⟩
+
+/-- every prefix of a history is below every longer prefix: development never runs backwards between ANY two steps -/
+theorem shrimp_history_prefix_monotone (dt : α) (hdt : 0 ≤ dt) (pre post : List α) (stage : α) (h6 : stage ≤ 6) :
+    pre.foldl (fun s t => shrimpStage t dt s) stage ≤ (pre ++ post).foldl (fun s t => shrimpStage t dt s) stage := by
+  rw [List.foldl_append]
+  exact (shrimp_history_monotone dt hdt post _ (shrimp_history_monotone dt hdt pre stage h6).2).1
+
 /-! ## cod / saithe larvae -/
 
 /-- behaviour and growth switch on the degree-day age *before* this step's ageing -/
